@@ -108,6 +108,8 @@ def op_line(op, block=None) -> str:
         return f"{k} " + qv(op[1])
     if k == "dist":
         return "dist " + op[1]
+    if k in ("moveabs", "rapidabs", "setaxis"):
+        return f"{k} " + qv(op[1])
     raise core.Infra(f"unknown op {op!r}")
 
 
@@ -313,6 +315,9 @@ class Session:
                 getattr(g, k)(**kw)
             elif k == "dist":
                 g.set_distance_mode("relative" if op[1] == "rel" else "absolute")
+            elif k in ("moveabs", "rapidabs", "setaxis"):
+                kw = {a: v for a, v in zip(AXES, op[1]) if v is not None}
+                {"moveabs": g.move_absolute, "rapidabs": g.rapid_absolute, "setaxis": g.set_axis}[k](**kw)
             else:
                 raise core.Infra(f"unknown op {op!r}")
             outcome = "ok"
@@ -369,7 +374,7 @@ def impl_record(e: dict, dp: int) -> str:
         code, words = lex_line(ln)
         if code in ("G90", "G91"):
             stmts.append(code)
-        elif code in ("G0", "G1"):
+        elif code in ("G0", "G1", "G92"):
             stmts.append(f"{code} w=" + ";".join(q(F(words[a])) if a in words else "-" for a in AXES))
         elif code is not None:
             stmts.append("?" + code)
@@ -383,11 +388,15 @@ def impl_record(e: dict, dp: int) -> str:
 def model_record_rounded(rec: str, dp: int) -> str:
     """model record with the emitted words rounded half-even at `dp` and without the `mv=`/`d=` extras"""
     parts = rec.split(" | ")
-    st = parts[1]
-    if st.startswith("G0 ") or st.startswith("G1 "):
-        f = dict(x.split("=") for x in st.split(" ")[1:])
-        w = ";".join("-" if c == "-" else q(round_he(F(c), dp)) for c in f["w"].split(";"))
-        parts[1] = f"{st[:2]} w={w}"
+    out = []
+    for st in parts[1].split(","):
+        if st[:3] in ("G0 ", "G1 ") or st.startswith("G92 "):
+            code = st.split(" ")[0]
+            f = dict(x.split("=") for x in st.split(" ")[1:])
+            w = ";".join("-" if c == "-" else q(round_he(F(c), dp)) for c in f["w"].split(";"))
+            st = f"{code} w={w}"
+        out.append(st)
+    parts[1] = ",".join(out)
     return " | ".join(parts)
 
 
